@@ -32,10 +32,16 @@ import (
 	"testing"
 	"time"
 
+	"github.com/scionproto/scion/pkg/addr"
+	"github.com/scionproto/scion/pkg/snet"
+	spath "github.com/scionproto/scion/pkg/snet/path"
+
 	"example.com/scion-time/core/client"
 	"example.com/scion-time/core/server"
 	"example.com/scion-time/core/timebase"
 	"example.com/scion-time/net/ntske"
+	scionnet "example.com/scion-time/net/scion"
+	scionudp "example.com/scion-time/net/udp"
 )
 
 func TestMain(m *testing.M) {
@@ -147,13 +153,19 @@ func childServer() {
 	if os.Getenv("C08_CSPTP") == "1" {
 		server.StartCSPTPServerIP(ctx, log, &net.UDPAddr{IP: ip}, 0)
 	}
+	if os.Getenv("C08_SCION") == "1" {
+		// no SCION daemon: same-AS operation, DRKeys mocked (USE_MOCK_KEYS=true in the environment)
+		server.StartSCIONServer(ctx, log, "", &net.UDPAddr{IP: ip, Port: scSrvPort}, 0, provider)
+	}
 	fmt.Println("READY")
 	os.Stdout.Sync()
 	select {}
 }
 
 type clientCmd struct {
-	Op         string `json:"op"` // "ip" | "csptp"
+	Op         string `json:"op"` // "ip" | "csptp" | "scion"
+	SPAO       bool   `json:"spao"`
+	NextHop    string `json:"next_hop"` // scion: underlay address of the first hop (the harness)
 	Auth       bool   `json:"auth"`
 	Local      string `json:"local"`
 	Remote     string `json:"remote"`
@@ -208,6 +220,24 @@ func childClient() {
 			laddr := &net.UDPAddr{IP: net.ParseIP(cmd.Local).To4()}
 			raddr := &net.UDPAddr{IP: net.ParseIP(cmd.Remote).To4(), Port: cmd.Port}
 			_, _, err = client.MeasureClockOffsetIP(ctx, log, c, laddr, raddr)
+		case "scion":
+			c := &client.SCIONClient{Log: log}
+			c.Auth.Enabled = cmd.SPAO
+			c.Auth.DRKeyFetcher = scionnet.NewFetcher(nil)
+			ia := addr.IA(scIA)
+			local := scionudp.UDPAddr{IA: ia, Host: &net.UDPAddr{IP: net.ParseIP(cmd.Local).To4()}}
+			remote := scionudp.UDPAddr{IA: ia, Host: &net.UDPAddr{IP: net.ParseIP(cmd.Remote).To4(), Port: cmd.Port}}
+			nh, e := net.ResolveUDPAddr("udp4", cmd.NextHop)
+			if e != nil {
+				panic(e)
+			}
+			sp := spath.Path{Src: ia, Dst: ia, DataplanePath: spath.Empty{}, NextHop: nh}
+			var ts time.Time
+			ts, _, err = client.MeasureClockOffsetSCION(ctx, log, []*client.SCIONClient{c}, local, remote, []snet.Path{sp})
+			if err == nil && ts.IsZero() {
+				// a failed measurement is reported as the zero measurement
+				err = fmt.Errorf("no measurement")
+			}
 		case "csptp":
 			c := csptpc[cmd.Remote]
 			if c == nil {
